@@ -53,8 +53,24 @@ and it leaves out, for these stated reasons,
     in a list of the key.
 These left-out forms are exercised by the correspondence harness (implementation = model =
 oracle on every step), not by the theorems.
+
+THE STEP IN FRONT OF THE OPERATION MODELS (`Ops/IndexForms.lean`): the operation models start
+from a classified `Key`; which Python OBJECT spells the key is decided by `get_index_variant`
+and the dispatch at the top of `__setitem__`.  `C04_dispatch_documented`,
+`C04_dense_setitem_documented_form`, `C04_sparse_setitem_documented_form`: every documented
+spelling of a key (`Key.forms`: Python int or NumPy integer scalar; slice; 1-d array or
+non-empty list of Python ints, also of one element; 2-d array; tuple) reaches the operation
+model of that key, so the history theorems hold whichever documented spelling is used;
+`C04_dispatch_unrecognised_iff`, `C04_dense_setitem_unrecognised_refused`,
+`C04_sparse_setitem_unrecognised_refused`: a key object the dispatcher does not recognise is
+refused, never ignored.  `C04_extract`, `C04_extract_refuses`: `sptensor.extract` called
+directly, with a `p × n` array or with one full subscript as a 1-d vector, returns the cells of
+the specification.  NOT modelled: the separate `isinstance` chains at the top of the two
+`__getitem__` methods (the harness runs every spelling through them), and what NumPy does with
+an undocumented spelling that the dispatcher lets through (a float array, a `range`).
 -/
 import PyttbModel.Lemmas.MutArrayCor
+import PyttbModel.Lemmas.MutArrayForms
 import Mathlib.Algebra.Group.Int.Defs
 namespace Pyttb
 
@@ -237,7 +253,89 @@ theorem C04_dense_sparse_agree [AddMonoid α] [DecidableEq α] {T : Dense α} {S
   intro i hi
   rw [h1.cell i hi, h2.cell i]
 
+/-! ### the spelling of a key, and `extract` called directly -/
+
+/-- `get_index_variant` sends every documented spelling of a key - a Python int or a NumPy integer
+scalar; a slice; a 1-d array or a non-empty list of Python ints (of any length, also one); a
+2-d array; a tuple - to the access kind of that key. -/
+theorem C04_dispatch_documented (k : Key) (o : KeyObj) (h : o ∈ k.forms) :
+    getIndexVariant o = .ok k.variant :=
+  getIndexVariant_of_form k o h
+
+/-- The key objects `get_index_variant` does not recognise are exactly: an object that is
+neither an integer, a slice, an array, a tuple nor a sequence (a float, `None`, …), and a
+non-empty sequence whose first element is not a Python int (a list of NumPy integers, a nested
+list, a `str`). -/
+theorem C04_dispatch_unrecognised_iff (o : KeyObj) :
+    getIndexVariant o = .ok .unknown ↔ o = .other ∨ ∃ e es, o = .seq (e :: es) ∧ e ≠ .pyInt :=
+  getIndexVariant_unknown_iff o
+
+/-- `tensor.__setitem__` given any documented spelling of a key performs the operation model
+of that key (to which `C04_dense_step` / `C04_dense_history` apply). -/
+theorem C04_dense_setitem_documented_form [Zero α] (T : Dense α) (k : Key) (o : KeyObj) (rhs : Rhs α)
+    (h : o ∈ k.forms) : T.setItemObj o k rhs = T.setItem k rhs :=
+  Dense.setItemObj_of_form T k o rhs h
+
+/-- `tensor.__setitem__` refuses a key object the dispatcher does not recognise, whatever its
+content and whatever the value: the assignment is never silently dropped. -/
+theorem C04_dense_setitem_unrecognised_refused [Zero α] (T : Dense α) (k : Key) (o : KeyObj) (rhs : Rhs α)
+    (h : getIndexVariant o = .ok .unknown) : T.setItemObj o k rhs = .error .reject :=
+  Dense.setItemObj_unknown T k o rhs h
+
+/-- `sptensor.__setitem__` given any documented spelling of a key performs the operation model
+of that key. -/
+theorem C04_sparse_setitem_documented_form [Zero α] [BEq α] (S : Sparse α) (k : Key) (o : KeyObj)
+    (rhs : Rhs α) (h : o ∈ k.forms) : S.setItemObj o k rhs = S.setItem k rhs :=
+  Sparse.setItemObj_of_form S k o rhs h
+
+/-- `sptensor.__setitem__` refuses a key object the dispatcher does not recognise - except in
+the one case the code decides before looking at the key: an EMPTY array assigned to a tensor
+without stored entries is a no-op (hypothesis `hne` excludes it). -/
+theorem C04_sparse_setitem_unrecognised_refused [Zero α] [BEq α] (S : Sparse α) (k : Key) (o : KeyObj)
+    (rhs : Rhs α) (h : getIndexVariant o = .ok .unknown)
+    (hne : (S.vals.isEmpty && rhs.isEmptyValue) = false) : S.setItemObj o k rhs = .error .reject :=
+  Sparse.setItemObj_unknown S k o rhs h hne
+
+/-- `sptensor.extract` called directly on a tensor that represents the array `m`, with a `p × n`
+array of subscripts or with ONE full subscript given as a 1-d vector: when every subscript
+is a full subscript inside the shape, the result is the column of the cells of `m`. -/
+theorem C04_extract [AddMonoid α] [DecidableEq α] {S : Sparse α} {m : MArr α} (h : SRel S m) (a : SubsArg)
+    (hb : ∀ r ∈ a.rows, inBounds m.shape r = true) : S.extractArg a = .ok (a.rows.map m.get) := by
+  rw [Sparse.extractArg_eq h a, if_neg]
+  simp only [List.any_eq_true, Bool.not_eq_true', not_exists, not_and]
+  intro r hr
+  simp [hb r hr]
+
+/-- … and when some subscript has another width than the order or lies outside the shape,
+`extract` refuses. -/
+theorem C04_extract_refuses [AddMonoid α] [DecidableEq α] {S : Sparse α} {m : MArr α} (h : SRel S m)
+    (a : SubsArg) (r : List Nat) (hr : r ∈ a.rows) (hb : inBounds m.shape r = false) :
+    S.extractArg a = .error .reject := by
+  rw [Sparse.extractArg_eq h a, if_pos]
+  simp only [List.any_eq_true, Bool.not_eq_true']
+  exact ⟨r, hr, hb⟩
+
 /-! ### the hypotheses are satisfiable by non-trivial inputs -/
+
+/-- Documented spellings: `T[[5]] = v` (a one-element list), `T[[1, 13]] = v`, `T[np.int64(3)] = v`. -/
+example : KeyObj.seq [.pyInt] ∈ (Key.linList [5]).forms ∧ KeyObj.seq [.pyInt, .pyInt] ∈ (Key.linList [1, 13]).forms
+    ∧ KeyObj.npInt ∈ (Key.lin 3).forms := by decide
+
+/-- Unrecognised: a list of NumPy integers, a nested list, a float. -/
+example : getIndexVariant (.seq [.npInt, .npInt]) = .ok .unknown ∧ getIndexVariant (.seq [.seq]) = .ok .unknown
+    ∧ getIndexVariant .other = .ok .unknown := ⟨rfl, rfl, rfl⟩
+
+/-- The dispatch really computes: a list write reaches `_set_linear`, a list of NumPy integers is refused. -/
+example : (⟨[2, 3], [1, 4, 2, 5, 3, 6]⟩ : Dense Int).setItemObj (.seq [.pyInt, .pyInt]) (.linList [1, 4]) (.col [9, 8])
+    = .ok ⟨[2, 3], [1, 9, 2, 5, 8, 6]⟩ := by rfl
+
+example : (⟨[2, 3], [1, 4, 2, 5, 3, 6]⟩ : Dense Int).setItemObj (.seq [.npInt, .npInt]) (.linList [1, 4]) (.col [9, 8])
+    = .error .reject := by rfl
+
+/-- `extract` with one full subscript as a 1-d vector, and with a 2 × 3 array. -/
+example : (⟨[3, 4, 5], [[1, 1, 3], [2, 0, 4]], [2, -1]⟩ : Sparse Int).extractArg (.vec [2, 0, 4]) = .ok [-1]
+    ∧ (⟨[3, 4, 5], [[1, 1, 3], [2, 0, 4]], [2, -1]⟩ : Sparse Int).extractArg (.mat [[0, 0, 0], [1, 1, 3]]) = .ok [0, 2] :=
+  ⟨by rfl, by rfl⟩
 
 /-- A history of accepted operations on a 2×2 dense tensor: a subscript write that adds a mode,
 a region write with an open slice and a negative integer, reads through a negative linear
